@@ -104,11 +104,12 @@ static int sched_ip_schedule(parsec_execution_stream_t* es,
         it = (parsec_list_item_t*)((parsec_list_item_t*)it)->list_next;
     } while( it != (parsec_list_item_t*)new_context );
 #endif
-    if( 0 == distance ) {
-        parsec_mca_sched_list_local_counter_chain_sorted(sl, new_context, parsec_execution_context_priority_comparator);
-    } else {
-        parsec_mca_sched_list_local_counter_chain_back(sl, new_context);
-    }
+    /* select pops from the back (lowest priority first): chaining re-scheduled
+     * tasks at the back, as the front-popping schedulers do for distance > 0,
+     * would return them next whatever their priority and leave the list
+     * unsorted. Keep the list sorted whatever the distance, as ap does. */
+    parsec_mca_sched_list_local_counter_chain_sorted(sl, new_context, parsec_execution_context_priority_comparator);
+    (void)distance;
     return PARSEC_SUCCESS;
 }
 
